@@ -90,8 +90,22 @@ def run(name, checks):
     json.dump(meta, open(mp, "w"), indent=1, ensure_ascii=False)
     print(name, "caught_by", meta["caught_by"])
 
+def summary():
+    import glob
+    head = open(os.path.join(VERIF, "seeded", "SUMMARY.md")).read().split("| seeded change |")[0]
+    rows = []
+    for mp in sorted(glob.glob(os.path.join(VERIF, "seeded", "*", "meta.json"))):
+        m = json.load(open(mp))
+        rows.append("| %s | %s | %s | %s | %s |" % (m["name"], m["breaks_property"], str(m.get("needs", "")).replace("|", "/"),
+                    ",".join(m.get("caught_by", [])), ",".join(m.get("missed_by", []))))
+    open(os.path.join(VERIF, "seeded", "SUMMARY.md"), "w").write(
+        head + "| seeded change | property | needs | caught by (quick tier) | run but not caught |\n|---|---|---|---|---|\n" + "\n".join(rows) + "\n")
+    print(len(rows), "rows")
+
 if __name__ == "__main__":
-    if sys.argv[1] == "verify":
+    if sys.argv[1] == "summary":
+        summary()
+    elif sys.argv[1] == "verify":
         ok = verify(sys.argv[2], sys.argv[3], sys.argv[4])
         sys.exit(0 if ok else 1)
     elif sys.argv[1] == "run":
